@@ -21,7 +21,8 @@ txt = ("# Seeded defects kept under /verif/seeded (patch.diff, demo.py, meta.jso
        "Rounds: entries 1-3 of each property come from the first round of sub-agents, 4-6 (C19: 3-5) from the second, 7-9 from the third "
        "(told to look for changes that need a specific sequence, input or pair of edits to manifest; C04 has two), 10-12 from the "
        "fourth (code none of the earlier changes touched, rarely used documented options, helper modules; C09 has two, C19 one), 13-14 from the "
-       "fifth (two per property, C19 excluded; same brief as the fourth with the round-4 summaries added to the do-not-repeat list).\n\n"
+       "fifth (two per property, C06 and C19 excluded; same brief as the fourth with the round-4 summaries added to the do-not-repeat list), 15-16 "
+       "from the sixth (all twenty properties, two each).\n\n"
        "| Seed | Change (sub-agent's summary) | File | Caught by (check tier: first failure key) |\n|---|---|---|---|\n" + "\n".join(rows) + "\n")
 open('/verif/seeded/INDEX.md', 'w').write(txt)
 print(len(rows))
